@@ -634,6 +634,10 @@ func runC17(r *Run, replay *Case) {
 	postModel["C17"] = func(c *Case, m any) any {
 		return m
 	}
+	if replay != nil && replay.Input["stream"] == "root-pop" {
+		c17RootPop(r)
+		return
+	}
 	if replay != nil {
 		var ops []c17Op
 		remarshal(replay.Input["ops"], &ops)
@@ -646,6 +650,7 @@ func runC17(r *Run, replay *Case) {
 		r.Add(c17Run(root, ops))
 		return
 	}
+	c17RootPop(r)
 	r.Res.Rule = "op sequences over {push(nil|map), pop, set, lookup, resolve, envmap, copy, foreach, depth} on roots of every shape (nil, map, struct, pointer-to-struct); " +
 		"exhaustive for sequences <= 4 over {push,pop,set a,set b,lookup a,lookup b} then random up to 14 ops; paths = top-level name x up to 3 steps over every container kind; " +
 		"non-trivial = at least one read op returns a found value; distinct by (root type, op/argument sequence)"
@@ -835,4 +840,50 @@ func safeLookup3(st *vuego.Stack, n string) (v any, ok bool, panicked bool) {
 	}()
 	v, ok = st.Lookup(n)
 	return
+}
+
+// c17RootPop: one Pop more than Push on a stack whose root data is the caller's map (the way Render builds it: the map is both the bottom
+// scope and the root data). Whatever happens to the bottom SCOPE, the root data value is the caller's: lookup, resolve and the merged
+// environment still fall back to it, a second stack over the same map is not affected, and the map itself is exactly what the caller passed.
+func c17RootPop(r *Run) {
+	for pops := 1; pops <= 3; pops++ {
+		for pushes := 0; pushes < pops; pushes++ {
+			m := map[string]any{"title": "Hello", "user": map[string]any{"name": "Ann"}, "n": 7, "list": []any{1, 2}}
+			snapshot := fmt.Sprintf("%#v", m)
+			st := vuego.NewStackWithData(vuego.VerifToMapData(m), m)
+			other := vuego.NewStackWithData(vuego.VerifToMapData(m), m)
+			for i := 0; i < pushes; i++ {
+				st.Push(map[string]any{"tmp": i})
+			}
+			var panicMsg string
+			func() {
+				defer func() {
+					if e := recover(); e != nil {
+						panicMsg = fmt.Sprint(e)
+					}
+				}()
+				for i := 0; i < pops; i++ {
+					st.Pop()
+				}
+			}()
+			name := fmt.Sprintf("root-pop pushes=%d pops=%d", pushes, pops)
+			c := &Case{Name: name, Key: name, Input: map[string]any{"stream": "root-pop", "pushes": pushes, "pops": pops}, Oracle: &Verdict{OK: true}, Tags: []string{"stream:root-pop"}}
+			v1, ok1 := st.Lookup("title")
+			v2, ok2 := st.Resolve("user.name")
+			v3, ok3 := other.Lookup("title")
+			env := st.EnvMap()
+			c.Impl = map[string]any{"lookup": fmt.Sprint(v1, ok1), "resolve": fmt.Sprint(v2, ok2), "other": fmt.Sprint(v3, ok3), "env": fmt.Sprint(env["title"]), "map": fmt.Sprintf("%#v", m) == snapshot}
+			switch {
+			case panicMsg != "":
+				c.Oracle = &Verdict{OK: false, Class: "root-pop:panic", Detail: panicMsg}
+			case fmt.Sprintf("%#v", m) != snapshot:
+				c.Oracle = &Verdict{OK: false, Class: "root-pop:callers-map-modified", Detail: fmt.Sprintf("%s: the map handed to the stack is now %#v, it was %s", name, m, snapshot)}
+			case !ok3 || v3 != "Hello":
+				c.Oracle = &Verdict{OK: false, Class: "root-pop:reaches-sibling-stack", Detail: fmt.Sprintf("%s: a second stack over the same data answers Lookup(title) = %v, %v", name, v3, ok3)}
+			case !ok1 || v1 != "Hello" || !ok2 || v2 != "Ann" || env["title"] != "Hello":
+				c.Oracle = &Verdict{OK: false, Class: "root-pop:root-data-fallback-lost", Detail: fmt.Sprintf("%s: Lookup(title) = %v, %v; Resolve(user.name) = %v, %v; EnvMap()[title] = %v - the root data value still holds them", name, v1, ok1, v2, ok2, env["title"])}
+			}
+			r.Add(c)
+		}
+	}
 }
